@@ -658,3 +658,75 @@ def effective_guards(node: ast.AST, root: ast.AST, txt=None, parents_map: Option
         child = p_
         p_ = par(p_)
     return tuple(sorted(set(out)))
+
+
+def with_helpers(p: Program, fn: FuncInfo, depth: int = 3) -> List[FuncInfo]:
+    """`fn` followed by the private helpers it calls (transitively, to `depth`): the code a maintainer would consider one unit.
+    A helper is what collect.default_inline inlines: a repository function `_name` without a behaviour-changing decorator."""
+    from .collect import default_inline
+    out: List[FuncInfo] = [fn]
+    seen = {fn.fq}
+    frontier = [fn]
+    for _ in range(depth):
+        nxt: List[FuncInfo] = []
+        for f in frontier:
+            for c in calls_in(f, deep=True):
+                try:
+                    r = p.resolve_call(f, c)
+                except Exception:
+                    r = None
+                if isinstance(r, FuncInfo) and r.fq not in seen and default_inline(r):
+                    seen.add(r.fq)
+                    out.append(r)
+                    nxt.append(r)
+        frontier = nxt
+    return out
+
+
+def sole_defs(fn: FuncInfo, name: str) -> Optional[List[ast.expr]]:
+    """the right-hand sides of the plain `name = <expr>` assignments of a local, or None when the name is (also) bound in any
+    other way (parameter, augmented assignment, unpacking, loop/with/except target, walrus, import, global/nonlocal, del):
+    only then is `name` a mere alias of those expressions"""
+    if name in fn.params:
+        return None
+    out: List[ast.expr] = []
+    for n in ast.walk(fn.node):
+        if isinstance(n, ast.Assign):
+            for t in n.targets:
+                if isinstance(t, ast.Name) and t.id == name:
+                    out.append(n.value)
+                elif any(isinstance(x, ast.Name) and x.id == name for x in ast.walk(t)) and not isinstance(t, (ast.Subscript, ast.Attribute)):
+                    return None
+        elif isinstance(n, ast.AnnAssign) and isinstance(n.target, ast.Name) and n.target.id == name:
+            if n.value is not None:
+                out.append(n.value)
+        elif isinstance(n, ast.Name) and n.id == name and isinstance(n.ctx, (ast.Store, ast.Del)):
+            par = next(iter(parents(n)), None)
+            if not (isinstance(par, (ast.Assign, ast.AnnAssign)) and (n in getattr(par, "targets", []) or n is getattr(par, "target", None))):
+                return None
+        elif isinstance(n, (ast.Global, ast.Nonlocal)) and name in n.names:
+            return None
+        elif isinstance(n, ast.ExceptHandler) and n.name == name:
+            return None
+        elif isinstance(n, (ast.Import, ast.ImportFrom)) and any((a.asname or a.name.split(".")[0]) == name for a in n.names):
+            return None
+        elif isinstance(n, (ast.FunctionDef, ast.AsyncFunctionDef, ast.ClassDef)) and n is not fn.node and n.name == name:
+            return None
+    return out
+
+
+def defs_of(fn: FuncInfo, e: ast.expr, depth: int = 3) -> List[ast.expr]:
+    """the expressions a value can come from: `e` itself, or - when `e` is a local that is only ever bound by plain
+    assignments - the right-hand sides of those (followed through further such locals). A rule that asks "is this argument
+    X(...)" thereby reads `tmp = X(...); f(tmp)` and `f(X(...))` alike."""
+    if isinstance(e, ast.Await):
+        inner = defs_of(fn, e.value, depth)
+        return [ast.copy_location(ast.Await(value=x), e) if not isinstance(x, ast.Await) else x for x in inner] if inner != [e.value] else [e]
+    if depth > 0 and isinstance(e, ast.Name) and isinstance(e.ctx, ast.Load):
+        ds = sole_defs(fn, e.id)
+        if ds:
+            out: List[ast.expr] = []
+            for d in ds:
+                out += defs_of(fn, d, depth - 1)
+            return out
+    return [e]
